@@ -124,6 +124,24 @@ def Val.truthy : Val → Bool
   | .sc (.other _) => true
   | .seq xs => !xs.isEmpty
 
+/-- `repr(x)` of a stored element; text is rendered as `'…'` (exact for text without quotes, backslashes and
+    non-printable characters — the alphabet the generators use where a repr matters) -/
+def Scalar.pyRepr : Scalar → String
+  | .none => "None"
+  | .bool b => if b then "True" else "False"
+  | .str s => "'" ++ s ++ "'"
+  | .bytes _ => "b'…'"
+  | .int i => toString i
+  | .float r => r
+  | .other t => "<" ++ t ++ ">"
+
+/-- `str(value)` of a stored attribute value (a sequence is stored as a tuple) -/
+def Val.pyStr : Val → String
+  | .sc (.str s) => s
+  | .sc x => x.pyRepr
+  | .seq [x] => "(" ++ x.pyRepr ++ ",)"
+  | .seq xs => "(" ++ ", ".intercalate (xs.map Scalar.pyRepr) ++ ")"
+
 /-! ### insertion-ordered dict -/
 abbrev OD := List (Key × Val)
 
